@@ -352,6 +352,19 @@ def run(prog: Program, chk: Check):
     L.decide(len(st) == 1 and isinstance(st[0].value, ast.Constant) and st[0].value.value == 0, fkey(sa, "num_data_bytes=0"), where(sa),
              "header-only frame declares 0 payload bytes", "Module.send_ack does not declare num_data_bytes = 0")
 
+    # ---- C05-H one header layout per stream ---------------------------------------------------------------------------------
+    H = chk.rule("C05-H", "every Module is created with the manager's configured header class; headers written by the Module writers come from it", 2,
+                 "a frame with a header of the other layout (48 vs 56 bytes) puts the receiver out of step: no later frame is whole")
+    from .mgr import module_constructions
+
+    for f_, c_, okc_ in module_constructions(prog):
+        H.decide(okc_, fkey(f_, f"Module(header_cls):{norm(c_)[:40]}"), where(f_, c_), "Module created with header_cls=self.header_cls",
+                 f"{f_.qual}: `{norm(c_)[:70]}` does not pass the configured header class: headers built through module.header_cls use the default layout")
+    for f_ in module_cls.methods.values():
+        for c_ in calls_in(f_.node):
+            if isinstance(c_.func, ast.Name) and c_.func.id in ("MessageHeader", "TimeCodeMessageHeader"):
+                H.bad(fkey(f_, c_), where(f_, c_), f"{f_.qual} builds a header of a fixed class: {norm(c_)[:50]}")
+
     # ---- C05-P a failed write never leaves the connection open -------------------------------------------------------
     P = chk.rule("C05-P", "every exception handler around a send to a module removes that module (whatever the exception class)", 3,
                  "sendall may have written part of a frame and the sequence counter is already incremented: keeping the connection open leaves a torn frame / a gap in its stream")
